@@ -171,20 +171,30 @@ def eval_impl(pool, e, snap):
 
     def check(*ops):
         for o in ops:
-            if (bytes(o.data), o.sr, o.sw, o.ch) != snap.setdefault(id(o), (bytes(o.data), o.sr, o.sw, o.ch)):
+            # the snapshot keeps the operand alive, so that its id() cannot be reused by a later temporary
+            if (bytes(o.data), o.sr, o.sw, o.ch) != snap.setdefault(id(o), (o, (bytes(o.data), o.sr, o.sw, o.ch)))[1]:
                 raise Mutated("an operand was altered by an operation")
+
+    def same(a, b):
+        return (a.sr, a.sw, a.ch) == (b.sr, b.sw, b.ch)
     if k == 0:
         return pool[e[1]]
     if k == 1:
         a, b = eval_impl(pool, e[1], snap), eval_impl(pool, e[2], snap)
-        check(a, b); out = a + b; check(a, b); return out
+        check(a, b); out = a + b; check(a, b)
+        if not same(a, b):
+            raise Mutated("concatenating regions with different audio parameters %r + %r did not raise AudioParameterError" % ((a.sr, a.sw, a.ch, len(a.data)), (b.sr, b.sw, b.ch, len(b.data))))
+        return out
     if k == 2:
         a = eval_impl(pool, e[1], snap)
         check(a); out = a * e[2]; check(a); return out
     if k == 3:
         sep = eval_impl(pool, e[1], snap)
         others = [eval_impl(pool, x, snap) for x in e[2]]
-        check(sep, *others); out = sep.join(others); check(sep, *others); return out
+        check(sep, *others); out = sep.join(others); check(sep, *others)
+        if not all(same(sep, o) for o in others):
+            raise Mutated("join of regions with different audio parameters did not raise AudioParameterError")
+        return out
     if k == 4:
         a = eval_impl(pool, e[1], snap)
         check(a); ps = a / e[2]; check(a)
